@@ -15,4 +15,5 @@ ASSUMPTIONS = ['MPI-IO semantics modelled (a write through a file view lands on 
 def run(ctx):
     gens = [('rw', dict(fn=lambda rng: api_gen.gen_rw_session(rng), share=4)),
             ('big', dict(fn=lambda rng: api_gen.gen_big_session(rng), share=1))]
-    api_check.run_api_check(ctx, gens, None, n_quick=30, n_thorough=500)
+    api_check.run_api_check(ctx, gens, None, n_quick=30, n_thorough=500,
+                            gens_translators=('consts', 'contig'))
